@@ -119,8 +119,8 @@ def scenario(rng, ticks):
 class Part:
     NAME = "sweep"
     ENGINE = "sweep"
-    IMPORTS = sysgen.IMPORTS
-    FN = "sys_check"
+    IMPORTS = sysgen.IMPORTS + "\nFrom Xds Require Import Model.FullView."
+    FN = "sys_check_full"
     TY = "sys_case"
     SHARD = 6
 
@@ -190,8 +190,9 @@ class Part:
 
     @staticmethod
     def PROJECT(v, c, o):
-        (cache, lookup, reqs, watched, acks, table, closed, s1, s2, s3, s4, s10, s19) = v
-        return ((cache and lookup and watched and (reqs or c.get("multi", False))), s19)
+        (cache, lookup, reqs, watched, acks, table, closed, s1, s2, s3, s4, s10, s19, sfull) = v
+        # s19: the sweep monitor; sfull: content and interest of every key follow the complete per-key fold (C01_refinement_full)
+        return ((cache and lookup and watched and (reqs or c.get("multi", False))), s19 and sfull)
 
     @staticmethod
     def describe(c, o):
